@@ -379,14 +379,705 @@ fn exec_op(op: &str) -> OpOut {
         ["pack", v] => exec_pack(v),
         ["unpack", h] => exec_unpack(h),
         ["ext_pack", v] => exec_ext_pack(v),
-        ["probe", h] => {
-            use speedy::Readable;
-            let bytes = parse_hex(h).unwrap();
-            let (res, peak) = measured(|| klukai_types::sync::SyncMessage::read_from_buffer(&bytes).map(|m| format!("{m:?}")));
-            OpOut { out: format!("{res:?} peak={peak} sizeof_need={} sizeof_change={} sizeof_val={}", std::mem::size_of::<klukai_types::sync::SyncNeedV1>(), std::mem::size_of::<klukai_types::change::Change>(), std::mem::size_of::<SqliteValue>()), ..Default::default() }
-        }
+        [op @ ("enc" | "dec" | "rt"), ty, arg] => exec_wire(op, ty, arg),
+        ["minbytes"] => exec_minbytes(),
         _ => OpOut::bad(),
     }
+}
+
+// ------------------------------------------------------------------------------------------------
+// wire values: terms `atom` | `name(term,…)`
+
+#[derive(Debug, Clone)]
+struct Tree {
+    tag: String,
+    kids: Vec<Tree>,
+}
+
+fn is_atom_char(c: u8) -> bool {
+    c.is_ascii_lowercase() || c.is_ascii_digit() || c == b'-'
+}
+
+fn p_tree(s: &[u8], mut i: usize) -> Option<(Tree, usize)> {
+    let start = i;
+    while i < s.len() && is_atom_char(s[i]) {
+        i += 1;
+    }
+    if i == start {
+        return None;
+    }
+    let tag = String::from_utf8(s[start..i].to_vec()).ok()?;
+    let mut kids = vec![];
+    if i < s.len() && s[i] == b'(' {
+        i += 1;
+        if i < s.len() && s[i] == b')' {
+            return Some((Tree { tag, kids }, i + 1));
+        }
+        loop {
+            let (t, j) = p_tree(s, i)?;
+            kids.push(t);
+            i = j;
+            match s.get(i) {
+                Some(b',') => i += 1,
+                Some(b')') => {
+                    i += 1;
+                    break;
+                }
+                _ => return None,
+            }
+        }
+    }
+    Some((Tree { tag, kids }, i))
+}
+
+fn parse_tree(s: &str) -> Option<Tree> {
+    let (t, i) = p_tree(s.as_bytes(), 0)?;
+    if i == s.len() { Some(t) } else { None }
+}
+
+fn atom(t: &Tree) -> Option<&str> {
+    if t.kids.is_empty() { Some(&t.tag) } else { None }
+}
+
+fn t_nat(t: &Tree) -> Option<u64> {
+    let a = atom(t)?;
+    if a.is_empty() || !a.bytes().all(|c| c.is_ascii_digit()) {
+        return None;
+    }
+    a.parse().ok()
+}
+
+fn t_i64(t: &Tree) -> Option<i64> {
+    let a = atom(t)?;
+    let d = a.strip_prefix('-').unwrap_or(a);
+    if d.is_empty() || !d.bytes().all(|c| c.is_ascii_digit()) {
+        return None;
+    }
+    a.parse().ok()
+}
+
+fn t_hex16(t: &Tree) -> Option<[u8; 16]> {
+    parse_hex_raw(atom(t)?)?.try_into().ok()
+}
+
+fn t_range(t: &Tree) -> Option<(u64, u64)> {
+    let a = atom(t)?;
+    let (x, y) = a.split_once('-')?;
+    if x.is_empty() || y.is_empty() || !x.bytes().all(|c| c.is_ascii_digit()) || !y.bytes().all(|c| c.is_ascii_digit()) {
+        return None;
+    }
+    Some((x.parse().ok()?, y.parse().ok()?))
+}
+
+fn t_opt<T>(t: &Tree, f: impl Fn(&Tree) -> Option<T>) -> Option<Option<T>> {
+    match (t.tag.as_str(), t.kids.as_slice()) {
+        ("none", []) => Some(None),
+        ("some", [x]) => f(x).map(Some),
+        _ => None,
+    }
+}
+
+fn t_list<T>(t: &Tree, f: impl Fn(&Tree) -> Option<T>) -> Option<Vec<T>> {
+    if t.tag != "l" {
+        return None;
+    }
+    t.kids.iter().map(f).collect()
+}
+
+fn t_map<K, V>(t: &Tree, fk: impl Fn(&Tree) -> Option<K>, fv: impl Fn(&Tree) -> Option<V>) -> Option<Vec<(K, V)>> {
+    if t.tag != "m" {
+        return None;
+    }
+    t.kids
+        .iter()
+        .map(|kv| match (kv.tag.as_str(), kv.kids.as_slice()) {
+            ("kv", [k, v]) => Some((fk(k)?, fv(v)?)),
+            _ => None,
+        })
+        .collect()
+}
+
+fn t_text(t: &Tree) -> Option<String> {
+    let a = atom(t)?;
+    String::from_utf8(parse_hex_raw(a.strip_prefix('t')?)?).ok()
+}
+
+fn t_bytes(t: &Tree) -> Option<Vec<u8>> {
+    parse_hex_raw(atom(t)?.strip_prefix('b')?)
+}
+
+use klukai_types::actor::{ActorId, ClusterId};
+use klukai_types::api::{ColumnName, TableName};
+use klukai_types::base::{CrsqlDbVersion, CrsqlSeq};
+use klukai_types::broadcast::{BiPayload, BiPayloadV1, BroadcastV1, ChangeV1, Changeset, Timestamp, UniPayload, UniPayloadV1};
+use klukai_types::change::Change;
+use klukai_types::sync::{SyncMessage, SyncMessageV1, SyncNeedV1, SyncRejectionV1, SyncStateV1, SyncTraceContextV1};
+use speedy::{Readable, Writable};
+use std::collections::HashMap;
+
+fn s_node(tag: &str, xs: &[String]) -> String {
+    format!("{tag}({})", xs.join(","))
+}
+fn s_opt<T>(o: &Option<T>, f: impl Fn(&T) -> String) -> String {
+    match o {
+        None => "none".into(),
+        Some(x) => s_node("some", &[f(x)]),
+    }
+}
+fn s_list<T>(xs: &[T], f: impl Fn(&T) -> String) -> String {
+    s_node("l", &xs.iter().map(f).collect::<Vec<_>>())
+}
+fn s_dbv_range(r: &std::ops::RangeInclusive<CrsqlDbVersion>) -> String {
+    format!("{}-{}", r.start().0, r.end().0)
+}
+fn s_seq_range(r: &std::ops::RangeInclusive<CrsqlSeq>) -> String {
+    format!("{}-{}", r.start().0, r.end().0)
+}
+fn s_actor(a: &ActorId) -> String {
+    hex::encode(a.0.as_bytes())
+}
+fn s_ts(t: &Timestamp) -> String {
+    t.0.0.to_string()
+}
+/// maps sorted by key (keys are unique in a HashMap)
+fn s_map<K: Ord + Clone + std::hash::Hash, V>(m: &HashMap<K, V>, fk: impl Fn(&K) -> String, fv: impl Fn(&V) -> String) -> String {
+    let mut ks: Vec<&K> = m.keys().collect();
+    ks.sort();
+    s_node("m", &ks.iter().map(|k| s_node("kv", &[fk(k), fv(&m[*k])])).collect::<Vec<_>>())
+}
+
+fn mk_actor(b: [u8; 16]) -> ActorId {
+    ActorId(uuid::Uuid::from_bytes(b))
+}
+fn dbv_range(r: (u64, u64)) -> std::ops::RangeInclusive<CrsqlDbVersion> {
+    CrsqlDbVersion(r.0)..=CrsqlDbVersion(r.1)
+}
+fn seq_range(r: (u64, u64)) -> std::ops::RangeInclusive<CrsqlSeq> {
+    CrsqlSeq(r.0)..=CrsqlSeq(r.1)
+}
+
+/// one wire type: term ↔ real value ↔ bytes
+trait Wire: Sized {
+    fn from_tree(t: &Tree) -> Option<Self>;
+    fn show(&self) -> String;
+    /// encoding does not depend on HashMap iteration order
+    fn det(&self) -> bool {
+        true
+    }
+    fn encode(&self) -> Result<Vec<u8>, String>;
+    fn decode(b: &[u8]) -> (Result<Self, String>, usize);
+    /// every text inside is valid UTF-8 (checked on the bytes, not trusted from the type)
+    fn texts_valid(&self) -> bool {
+        true
+    }
+    fn min_bytes() -> usize;
+}
+
+macro_rules! speedy_codec {
+    () => {
+        fn encode(&self) -> Result<Vec<u8>, String> {
+            self.write_to_vec().map_err(|e| e.to_string())
+        }
+        fn decode(b: &[u8]) -> (Result<Self, String>, usize) {
+            let (r, n) = Self::read_with_length_from_buffer(b);
+            (r.map_err(|e| e.to_string()), n)
+        }
+        fn min_bytes() -> usize {
+            <Self as Readable<speedy::LittleEndian>>::minimum_bytes_needed()
+        }
+    };
+}
+
+fn utf8_ok(s: &str) -> bool {
+    std::str::from_utf8(s.as_bytes()).is_ok()
+}
+
+impl Wire for SqliteValue {
+    fn from_tree(t: &Tree) -> Option<Self> {
+        parse_val(atom(t)?)
+    }
+    fn show(&self) -> String {
+        show_val(self)
+    }
+    fn texts_valid(&self) -> bool {
+        match self {
+            SqliteValue::Text(t) => utf8_ok(t),
+            _ => true,
+        }
+    }
+    speedy_codec!();
+}
+
+impl Wire for Timestamp {
+    fn from_tree(t: &Tree) -> Option<Self> {
+        t_nat(t).map(Timestamp::from)
+    }
+    fn show(&self) -> String {
+        s_ts(self)
+    }
+    speedy_codec!();
+}
+
+impl Wire for CrsqlDbVersion {
+    fn from_tree(t: &Tree) -> Option<Self> {
+        t_nat(t).map(CrsqlDbVersion)
+    }
+    fn show(&self) -> String {
+        self.0.to_string()
+    }
+    speedy_codec!();
+}
+
+impl Wire for CrsqlSeq {
+    fn from_tree(t: &Tree) -> Option<Self> {
+        t_nat(t).map(CrsqlSeq)
+    }
+    fn show(&self) -> String {
+        self.0.to_string()
+    }
+    speedy_codec!();
+}
+
+impl Wire for ClusterId {
+    fn from_tree(t: &Tree) -> Option<Self> {
+        t_nat(t).and_then(|n| u16::try_from(n).ok()).map(ClusterId)
+    }
+    fn show(&self) -> String {
+        self.0.to_string()
+    }
+    speedy_codec!();
+}
+
+impl Wire for ActorId {
+    fn from_tree(t: &Tree) -> Option<Self> {
+        t_hex16(t).map(mk_actor)
+    }
+    fn show(&self) -> String {
+        s_actor(self)
+    }
+    speedy_codec!();
+}
+
+impl Wire for Change {
+    fn from_tree(t: &Tree) -> Option<Self> {
+        match (t.tag.as_str(), t.kids.as_slice()) {
+            ("c", [table, pk, cid, val, cv, dbv, seq, site, cl]) => Some(Change {
+                table: TableName(t_text(table)?.into()),
+                pk: t_bytes(pk)?,
+                cid: ColumnName(t_text(cid)?.into()),
+                val: SqliteValue::from_tree(val)?,
+                col_version: t_i64(cv)?,
+                db_version: CrsqlDbVersion(t_nat(dbv)?),
+                seq: CrsqlSeq(t_nat(seq)?),
+                site_id: t_hex16(site)?,
+                cl: t_i64(cl)?,
+            }),
+            _ => None,
+        }
+    }
+    fn show(&self) -> String {
+        s_node(
+            "c",
+            &[
+                format!("t{}", hex::encode(self.table.0.as_bytes())),
+                format!("b{}", hex::encode(&self.pk)),
+                format!("t{}", hex::encode(self.cid.0.as_bytes())),
+                show_val(&self.val),
+                self.col_version.to_string(),
+                self.db_version.0.to_string(),
+                self.seq.0.to_string(),
+                hex::encode(self.site_id),
+                self.cl.to_string(),
+            ],
+        )
+    }
+    fn texts_valid(&self) -> bool {
+        utf8_ok(&self.table.0) && utf8_ok(&self.cid.0) && self.val.texts_valid()
+    }
+    speedy_codec!();
+}
+
+impl Wire for Changeset {
+    fn from_tree(t: &Tree) -> Option<Self> {
+        match (t.tag.as_str(), t.kids.as_slice()) {
+            ("empty", [r, ts]) => Some(Changeset::Empty { versions: dbv_range(t_range(r)?), ts: t_opt(ts, Timestamp::from_tree)? }),
+            ("full", [v, cs, r, last, ts]) => Some(Changeset::Full {
+                version: CrsqlDbVersion(t_nat(v)?),
+                changes: t_list(cs, Change::from_tree)?,
+                seqs: seq_range(t_range(r)?),
+                last_seq: CrsqlSeq(t_nat(last)?),
+                ts: Timestamp::from_tree(ts)?,
+            }),
+            ("emptyset", [rs, ts]) => {
+                Some(Changeset::EmptySet { versions: t_list(rs, |r| t_range(r).map(dbv_range))?, ts: Timestamp::from_tree(ts)? })
+            }
+            _ => None,
+        }
+    }
+    fn show(&self) -> String {
+        match self {
+            Changeset::Empty { versions, ts } => s_node("empty", &[s_dbv_range(versions), s_opt(ts, s_ts)]),
+            Changeset::Full { version, changes, seqs, last_seq, ts } => s_node(
+                "full",
+                &[version.0.to_string(), s_list(changes, |c| c.show()), s_seq_range(seqs), last_seq.0.to_string(), s_ts(ts)],
+            ),
+            Changeset::EmptySet { versions, ts } => s_node("emptyset", &[s_list(versions, s_dbv_range), s_ts(ts)]),
+        }
+    }
+    fn texts_valid(&self) -> bool {
+        self.changes().iter().all(|c| c.texts_valid())
+    }
+    speedy_codec!();
+}
+
+impl Wire for ChangeV1 {
+    fn from_tree(t: &Tree) -> Option<Self> {
+        match (t.tag.as_str(), t.kids.as_slice()) {
+            ("cv", [a, c]) => Some(ChangeV1 { actor_id: ActorId::from_tree(a)?, changeset: Changeset::from_tree(c)? }),
+            _ => None,
+        }
+    }
+    fn show(&self) -> String {
+        s_node("cv", &[s_actor(&self.actor_id), self.changeset.show()])
+    }
+    fn texts_valid(&self) -> bool {
+        self.changeset.texts_valid()
+    }
+    speedy_codec!();
+}
+
+impl Wire for SyncNeedV1 {
+    fn from_tree(t: &Tree) -> Option<Self> {
+        match (t.tag.as_str(), t.kids.as_slice()) {
+            ("full", [r]) => Some(SyncNeedV1::Full { versions: dbv_range(t_range(r)?) }),
+            ("partial", [v, rs]) => {
+                Some(SyncNeedV1::Partial { version: CrsqlDbVersion(t_nat(v)?), seqs: t_list(rs, |r| t_range(r).map(seq_range))? })
+            }
+            ("empty", [ts]) => Some(SyncNeedV1::Empty { ts: t_opt(ts, Timestamp::from_tree)? }),
+            _ => None,
+        }
+    }
+    fn show(&self) -> String {
+        match self {
+            SyncNeedV1::Full { versions } => s_node("full", &[s_dbv_range(versions)]),
+            SyncNeedV1::Partial { version, seqs } => s_node("partial", &[version.0.to_string(), s_list(seqs, s_seq_range)]),
+            SyncNeedV1::Empty { ts } => s_node("empty", &[s_opt(ts, s_ts)]),
+        }
+    }
+    speedy_codec!();
+}
+
+impl Wire for SyncStateV1 {
+    fn from_tree(t: &Tree) -> Option<Self> {
+        match (t.tag.as_str(), t.kids.as_slice()) {
+            ("state", [a, heads, need, pn, ts]) => Some(SyncStateV1 {
+                actor_id: ActorId::from_tree(a)?,
+                // later duplicates replace earlier ones, as HashMap::insert does
+                heads: t_map(heads, ActorId::from_tree, CrsqlDbVersion::from_tree)?.into_iter().collect(),
+                need: t_map(need, ActorId::from_tree, |v| t_list(v, |r| t_range(r).map(dbv_range)))?.into_iter().collect(),
+                partial_need: t_map(pn, ActorId::from_tree, |m| {
+                    t_map(m, CrsqlDbVersion::from_tree, |v| t_list(v, |r| t_range(r).map(seq_range)))
+                        .map(|kv| kv.into_iter().collect::<HashMap<_, _>>())
+                })?
+                .into_iter()
+                .collect(),
+                last_cleared_ts: t_opt(ts, Timestamp::from_tree)?,
+            }),
+            _ => None,
+        }
+    }
+    fn show(&self) -> String {
+        s_node(
+            "state",
+            &[
+                s_actor(&self.actor_id),
+                s_map(&self.heads, s_actor, |v| v.0.to_string()),
+                s_map(&self.need, s_actor, |v| s_list(v, s_dbv_range)),
+                s_map(&self.partial_need, s_actor, |m| s_map(m, |k| k.0.to_string(), |v| s_list(v, s_seq_range))),
+                s_opt(&self.last_cleared_ts, s_ts),
+            ],
+        )
+    }
+    fn det(&self) -> bool {
+        self.heads.len() <= 1 && self.need.len() <= 1 && self.partial_need.len() <= 1 && self.partial_need.values().all(|m| m.len() <= 1)
+    }
+    speedy_codec!();
+}
+
+impl Wire for UniPayload {
+    fn from_tree(t: &Tree) -> Option<Self> {
+        match (t.tag.as_str(), t.kids.as_slice()) {
+            ("uni", [c, cl]) => Some(UniPayload::V1 {
+                data: UniPayloadV1::Broadcast(BroadcastV1::Change(ChangeV1::from_tree(c)?)),
+                cluster_id: ClusterId::from_tree(cl)?,
+            }),
+            _ => None,
+        }
+    }
+    fn show(&self) -> String {
+        let UniPayload::V1 { data: UniPayloadV1::Broadcast(BroadcastV1::Change(c)), cluster_id } = self;
+        s_node("uni", &[c.show(), cluster_id.0.to_string()])
+    }
+    fn texts_valid(&self) -> bool {
+        let UniPayload::V1 { data: UniPayloadV1::Broadcast(BroadcastV1::Change(c)), .. } = self;
+        c.texts_valid()
+    }
+    speedy_codec!();
+}
+
+fn s_text(s: &String) -> String {
+    format!("t{}", hex::encode(s.as_bytes()))
+}
+
+impl Wire for BiPayload {
+    fn from_tree(t: &Tree) -> Option<Self> {
+        match (t.tag.as_str(), t.kids.as_slice()) {
+            ("bi", [a, tr, cl]) => {
+                let trace_ctx = match (tr.tag.as_str(), tr.kids.as_slice()) {
+                    ("trace", [p, s]) => SyncTraceContextV1 { traceparent: t_opt(p, t_text)?, tracestate: t_opt(s, t_text)? },
+                    _ => return None,
+                };
+                Some(BiPayload::V1 {
+                    data: BiPayloadV1::SyncStart { actor_id: ActorId::from_tree(a)?, trace_ctx },
+                    cluster_id: ClusterId::from_tree(cl)?,
+                })
+            }
+            _ => None,
+        }
+    }
+    fn show(&self) -> String {
+        let BiPayload::V1 { data: BiPayloadV1::SyncStart { actor_id, trace_ctx }, cluster_id } = self;
+        s_node(
+            "bi",
+            &[
+                s_actor(actor_id),
+                s_node("trace", &[s_opt(&trace_ctx.traceparent, s_text), s_opt(&trace_ctx.tracestate, s_text)]),
+                cluster_id.0.to_string(),
+            ],
+        )
+    }
+    fn texts_valid(&self) -> bool {
+        let BiPayload::V1 { data: BiPayloadV1::SyncStart { trace_ctx, .. }, .. } = self;
+        trace_ctx.traceparent.as_deref().map(utf8_ok).unwrap_or(true) && trace_ctx.tracestate.as_deref().map(utf8_ok).unwrap_or(true)
+    }
+    speedy_codec!();
+}
+
+impl Wire for SyncMessage {
+    fn from_tree(t: &Tree) -> Option<Self> {
+        let m = match (t.tag.as_str(), t.kids.as_slice()) {
+            ("mstate", [s]) => SyncMessageV1::State(SyncStateV1::from_tree(s)?),
+            ("mchangeset", [c]) => SyncMessageV1::Changeset(ChangeV1::from_tree(c)?),
+            ("mclock", [ts]) => SyncMessageV1::Clock(Timestamp::from_tree(ts)?),
+            ("mreject", [r]) => SyncMessageV1::Rejection(match t_nat(r)? {
+                0 => SyncRejectionV1::MaxConcurrencyReached,
+                1 => SyncRejectionV1::DifferentCluster,
+                _ => return None,
+            }),
+            ("mrequest", [es]) => SyncMessageV1::Request(t_list(es, |kv| match (kv.tag.as_str(), kv.kids.as_slice()) {
+                ("kv", [a, ns]) => Some((ActorId::from_tree(a)?, t_list(ns, SyncNeedV1::from_tree)?)),
+                _ => None,
+            })?),
+            _ => return None,
+        };
+        Some(SyncMessage::V1(m))
+    }
+    fn show(&self) -> String {
+        let SyncMessage::V1(m) = self;
+        match m {
+            SyncMessageV1::State(s) => s_node("mstate", &[s.show()]),
+            SyncMessageV1::Changeset(c) => s_node("mchangeset", &[c.show()]),
+            SyncMessageV1::Clock(ts) => s_node("mclock", &[s_ts(ts)]),
+            SyncMessageV1::Rejection(r) => s_node(
+                "mreject",
+                &[match r {
+                    SyncRejectionV1::MaxConcurrencyReached => "0".to_string(),
+                    SyncRejectionV1::DifferentCluster => "1".to_string(),
+                }],
+            ),
+            SyncMessageV1::Request(es) => {
+                s_node("mrequest", &[s_list(es, |(a, ns)| s_node("kv", &[s_actor(a), s_list(ns, |n| n.show())]))])
+            }
+        }
+    }
+    fn det(&self) -> bool {
+        match self {
+            SyncMessage::V1(SyncMessageV1::State(s)) => s.det(),
+            _ => true,
+        }
+    }
+    fn texts_valid(&self) -> bool {
+        match self {
+            SyncMessage::V1(SyncMessageV1::Changeset(c)) => c.texts_valid(),
+            _ => true,
+        }
+    }
+    speedy_codec!();
+}
+
+fn wire_enc<T: Wire>(arg: &str, rt: bool) -> OpOut {
+    let Some(v) = parse_tree(arg).and_then(|t| T::from_tree(&t)) else { return OpOut::bad() };
+    if !rt && !v.det() {
+        return OpOut::bad();
+    }
+    let mut o = OpOut::default();
+    let want = v.show();
+    let (res, _) = measured(|| v.encode());
+    let bytes = match res {
+        Err(p) => {
+            o.out = "panic".into();
+            o.fails.push(format!("encode panicked: {p}"));
+            return o;
+        }
+        Ok(Err(e)) => {
+            o.out = "err".into();
+            o.fails.push(format!("encode of a well-formed value failed: {e}"));
+            return o;
+        }
+        Ok(Ok(b)) => b,
+    };
+    // oracle: the real decoder gives the value back, consuming exactly the encoding
+    let (back, peak) = measured(|| {
+        let (r, n) = T::decode(&bytes);
+        (r.map(|x| (x.show(), x.texts_valid())), n)
+    });
+    if !alloc_ok(peak, bytes.len()) {
+        o.fails.push(format!("allocation: decoding {} bytes peaked at {} heap bytes", bytes.len(), peak));
+    }
+    match back {
+        Err(p) => o.fails.push(format!("decode of an encoded value panicked: {p}")),
+        Ok((Err(e), _)) => o.fails.push(format!("round trip: decode(encode(v)) = err {e}")),
+        Ok((Ok((got, utf8)), n)) => {
+            if got != want {
+                o.fails.push(format!("round trip: decode(encode(v)) != v: got {} want {}", clip(&got), clip(&want)));
+            }
+            if n != bytes.len() {
+                o.fails.push(format!("round trip: decode consumed {n} of {} bytes", bytes.len()));
+            }
+            if !utf8 {
+                o.fails.push("decoded text is not valid UTF-8".into());
+            }
+            o.nontrivial = true;
+            o.out = if rt { format!("ok {got}") } else { format!("ok {}", hex_of(&bytes)) };
+            return o;
+        }
+    }
+    o.out = "err".into();
+    o
+}
+
+fn wire_dec<T: Wire>(arg: &str) -> OpOut {
+    let Some(bytes) = parse_hex(arg) else { return OpOut::bad() };
+    let mut o = OpOut::default();
+    let (res, peak) = measured(|| {
+        let (r, n) = T::decode(&bytes);
+        (
+            r.map(|x| {
+                // a decoded value must survive its own round trip
+                let again = x.encode().ok().map(|b| T::decode(&b).0.map(|y| y.show()).ok());
+                (x.show(), x.texts_valid(), again)
+            }),
+            n,
+        )
+    });
+    if !alloc_ok(peak, bytes.len()) {
+        o.fails.push(format!("allocation: decoding {} bytes peaked at {} heap bytes", bytes.len(), peak));
+    }
+    o.tags.push(format!("alloc-ratio:{}", ratio_bucket(peak, bytes.len())));
+    match res {
+        Err(p) => {
+            o.out = "panic".into();
+            o.fails.push(format!("decode panicked: {p}"));
+        }
+        Ok((Err(_), _)) => {
+            o.out = "err".into();
+        }
+        Ok((Ok((shown, utf8, again)), n)) => {
+            if !utf8 {
+                o.fails.push("decoded text is not valid UTF-8".into());
+            }
+            if n > bytes.len() {
+                o.fails.push(format!("decode claims to have consumed {n} of {} bytes", bytes.len()));
+            }
+            match again {
+                Some(Some(s2)) if s2 == shown => {}
+                Some(Some(s2)) => o.fails.push(format!("a decoded value does not survive re-encoding: {} vs {}", clip(&shown), clip(&s2))),
+                _ => o.fails.push("a decoded value cannot be re-encoded and decoded".into()),
+            }
+            o.out = format!("ok {shown} {n}");
+            o.nontrivial = true;
+        }
+    }
+    o
+}
+
+fn ratio_bucket(peak: usize, len: usize) -> &'static str {
+    let r = peak / len.max(1);
+    match r {
+        0 => "<1",
+        1..=3 => "1-3",
+        4..=15 => "4-15",
+        16..=31 => "16-31",
+        32..=63 => "32-63",
+        _ => ">=64",
+    }
+}
+
+macro_rules! by_type {
+    ($ty:expr, $f:ident $(, $a:expr)*) => {
+        match $ty {
+            "value" => $f::<SqliteValue>($($a),*),
+            "ts" => $f::<Timestamp>($($a),*),
+            "dbv" => $f::<CrsqlDbVersion>($($a),*),
+            "seq" => $f::<CrsqlSeq>($($a),*),
+            "cluster" => $f::<ClusterId>($($a),*),
+            "actor" => $f::<ActorId>($($a),*),
+            "change" => $f::<Change>($($a),*),
+            "changeset" => $f::<Changeset>($($a),*),
+            "changev1" => $f::<ChangeV1>($($a),*),
+            "need" => $f::<SyncNeedV1>($($a),*),
+            "state" => $f::<SyncStateV1>($($a),*),
+            "uni" => $f::<UniPayload>($($a),*),
+            "bi" => $f::<BiPayload>($($a),*),
+            "msg" => $f::<SyncMessage>($($a),*),
+            _ => return OpOut::bad(),
+        }
+    };
+}
+
+fn exec_wire(op: &str, ty: &str, arg: &str) -> OpOut {
+    let mut o = match op {
+        "enc" => by_type!(ty, wire_enc, arg, false),
+        "rt" => by_type!(ty, wire_enc, arg, true),
+        _ => by_type!(ty, wire_dec, arg),
+    };
+    let class = if o.out.starts_with("ok") { "ok" } else if o.out == "err" { "err" } else { "other" };
+    o.tags.push(format!("{op}:{ty}:{class}"));
+    o
+}
+
+fn exec_minbytes() -> OpOut {
+    OpOut {
+        out: format!(
+            "ok change={},need={},reqentry={}",
+            Change::min_bytes(),
+            SyncNeedV1::min_bytes(),
+            <(ActorId, Vec<SyncNeedV1>) as Readable<speedy::LittleEndian>>::minimum_bytes_needed()
+        ),
+        ..Default::default()
+    }
+}
+
+/// real encoding of a term (generators build hostile frames from valid ones)
+fn encode_term(ty: &str, term: &str) -> Vec<u8> {
+    fn go<T: Wire>(term: &str) -> OpOut {
+        let b = parse_tree(term).and_then(|t| T::from_tree(&t)).and_then(|v| v.encode().ok()).unwrap_or_default();
+        OpOut { out: hex::encode(b), ..Default::default() }
+    }
+    fn inner(ty: &str, term: &str) -> OpOut {
+        by_type!(ty, go, term)
+    }
+    hex::decode(inner(ty, term).out).unwrap_or_default()
 }
 
 fn bucket(n: usize) -> &'static str {
@@ -796,6 +1487,306 @@ fn gen_packed_hostile(rng: &mut Rng) -> Vec<u8> {
     }
 }
 
+// wire value generators (terms) --------------------------------------------------------------------
+
+const ACTOR_POOL: [&str; 4] = [
+    "00000000000000000000000000000000",
+    "0102030405060708090a0b0c0d0e0f10",
+    "ffffffffffffffffffffffffffffffff",
+    "0102030405060708090a0b0c0d0e0f11",
+];
+
+fn gen_actor(rng: &mut Rng) -> String {
+    if rng.chance(2, 3) {
+        rng.pick(&ACTOR_POOL).to_string()
+    } else {
+        hex::encode(gen_bytes(rng, 16))
+    }
+}
+
+fn gen_u64(rng: &mut Rng) -> u64 {
+    match rng.below(8) {
+        0 => 0,
+        1 => 1,
+        2 => u64::MAX,
+        3 => 1 << rng.range(0, 63),
+        4 => (1u64 << rng.range(1, 63)) - 1,
+        5 | 6 => rng.range(0, 2000),
+        _ => rng.next_u64(),
+    }
+}
+
+fn gen_range(rng: &mut Rng) -> String {
+    let lo = gen_u64(rng);
+    let hi = match rng.below(4) {
+        0 => lo,
+        1 => lo.saturating_add(rng.range(0, 50)),
+        2 => gen_u64(rng), // possibly inverted: the codec does not care
+        _ => lo.saturating_add(gen_u64(rng) % 1000),
+    };
+    format!("{lo}-{hi}")
+}
+
+fn gen_ranges(rng: &mut Rng, max: u64) -> String {
+    let n = match rng.below(6) { 0 => 0, 1..=3 => rng.range(1, 3), _ => rng.range(0, max) };
+    format!("l({})", (0..n).map(|_| gen_range(rng)).collect::<Vec<_>>().join(","))
+}
+
+fn gen_opt_ts(rng: &mut Rng) -> String {
+    if rng.chance(1, 3) { "none".into() } else { format!("some({})", gen_u64(rng)) }
+}
+
+fn gen_text_term(rng: &mut Rng, class: u8) -> String {
+    format!("t{}", hex::encode(gen_text(rng, class).as_bytes()))
+}
+
+fn gen_change(rng: &mut Rng, class: u8) -> String {
+    let pk = if rng.chance(3, 4) {
+        let vs = gen_vals(rng, true, 4);
+        pack_columns(&vals_to_real(&vs)).unwrap_or_default()
+    } else {
+        let n = gen_len(rng, 0);
+        gen_bytes(rng, n)
+    };
+    format!(
+        "c({},b{},{},{},{},{},{},{},{})",
+        gen_text_term(rng, 0),
+        hex::encode(pk),
+        gen_text_term(rng, 0),
+        gen_val(rng, true, class),
+        gen_int(rng),
+        gen_u64(rng),
+        gen_u64(rng),
+        gen_actor(rng),
+        gen_int(rng)
+    )
+}
+
+fn gen_changeset(rng: &mut Rng) -> String {
+    match rng.below(5) {
+        0 => format!("empty({},{})", gen_range(rng), gen_opt_ts(rng)),
+        1 => format!("emptyset({},{})", gen_ranges(rng, 12), gen_u64(rng)),
+        _ => {
+            let n = match rng.below(10) { 0 => 0, 1..=6 => rng.range(1, 4), 7 | 8 => rng.range(5, 12), _ => rng.range(13, 40) };
+            let class = if n <= 2 && rng.chance(1, 12) { 2 } else if n <= 6 { 1 } else { 0 };
+            let cs: Vec<String> = (0..n).map(|_| gen_change(rng, class)).collect();
+            format!("full({},l({}),{},{},{})", gen_u64(rng), cs.join(","), gen_range(rng), gen_u64(rng), gen_u64(rng))
+        }
+    }
+}
+
+fn gen_changev1(rng: &mut Rng) -> String {
+    format!("cv({},{})", gen_actor(rng), gen_changeset(rng))
+}
+
+fn gen_need(rng: &mut Rng) -> String {
+    match rng.below(3) {
+        0 => format!("full({})", gen_range(rng)),
+        1 => format!("partial({},{})", gen_u64(rng), gen_ranges(rng, 8)),
+        _ => format!("empty({})", gen_opt_ts(rng)),
+    }
+}
+
+/// `det`: at most one entry per map (encoding independent of HashMap order)
+fn gen_state(rng: &mut Rng, det: bool) -> String {
+    let count = |rng: &mut Rng| -> u64 {
+        if det { rng.range(0, 1) } else { match rng.below(4) { 0 => 0, 1 => 1, _ => rng.range(2, 5) } }
+    };
+    let nh = count(rng);
+    let heads: Vec<String> = (0..nh).map(|_| format!("kv({},{})", gen_actor(rng), gen_u64(rng))).collect();
+    let nn = count(rng);
+    let need: Vec<String> = (0..nn).map(|_| format!("kv({},{})", gen_actor(rng), gen_ranges(rng, 6))).collect();
+    let np = count(rng);
+    let pn: Vec<String> = (0..np)
+        .map(|_| {
+            let nv = count(rng);
+            let vs: Vec<String> = (0..nv).map(|_| format!("kv({},{})", if rng.chance(1, 2) { rng.range(0, 3) } else { gen_u64(rng) }, gen_ranges(rng, 5))).collect();
+            format!("kv({},m({}))", gen_actor(rng), vs.join(","))
+        })
+        .collect();
+    format!("state({},m({}),m({}),m({}),{})", gen_actor(rng), heads.join(","), need.join(","), pn.join(","), gen_opt_ts(rng))
+}
+
+fn gen_trace_str(rng: &mut Rng) -> String {
+    match rng.below(4) {
+        0 => "none".into(),
+        1 => format!("some(t{})", hex::encode("00-4bf92f3577b34da6a3ce929d0e0e4736-00f067aa0ba902b7-01")),
+        _ => format!("some({})", gen_text_term(rng, 1)),
+    }
+}
+
+fn gen_cluster(rng: &mut Rng) -> u64 {
+    match rng.below(4) { 0 => 0, 1 => 65535, 2 => rng.range(0, 5), _ => rng.below(65536) }
+}
+
+fn gen_uni(rng: &mut Rng) -> String {
+    format!("uni({},{})", gen_changev1(rng), gen_cluster(rng))
+}
+
+fn gen_bi(rng: &mut Rng) -> String {
+    format!("bi({},trace({},{}),{})", gen_actor(rng), gen_trace_str(rng), gen_trace_str(rng), gen_cluster(rng))
+}
+
+fn gen_msg(rng: &mut Rng, det: bool) -> String {
+    match rng.below(8) {
+        0 | 1 => format!("mstate({})", gen_state(rng, det)),
+        2 | 3 => format!("mchangeset({})", gen_changev1(rng)),
+        4 => format!("mclock({})", gen_u64(rng)),
+        5 => format!("mreject({})", rng.below(2)),
+        _ => {
+            let n = match rng.below(4) { 0 => 0, 1 => 1, _ => rng.range(2, 5) };
+            let es: Vec<String> = (0..n)
+                .map(|_| {
+                    let k = match rng.below(4) { 0 => 0, 1 => 1, _ => rng.range(2, 8) };
+                    format!("kv({},l({}))", gen_actor(rng), (0..k).map(|_| gen_need(rng)).collect::<Vec<_>>().join(","))
+                })
+                .collect();
+            format!("mrequest(l({}))", es.join(","))
+        }
+    }
+}
+
+const WIRE_TYPES: [&str; 14] =
+    ["value", "ts", "dbv", "seq", "cluster", "actor", "change", "changeset", "changev1", "need", "state", "uni", "bi", "msg"];
+
+/// a generated term of the type (deterministic encoding when `det`)
+fn gen_term(rng: &mut Rng, ty: &str, det: bool) -> String {
+    match ty {
+        "value" => {
+            let class = if rng.chance(1, 40) { 2 } else { 1 };
+            gen_val(rng, true, class)
+        }
+        "ts" | "dbv" | "seq" => gen_u64(rng).to_string(),
+        "cluster" => gen_cluster(rng).to_string(),
+        "actor" => gen_actor(rng),
+        "change" => {
+            let class = if rng.chance(1, 40) { 2 } else { 1 };
+            gen_change(rng, class)
+        }
+        "changeset" => gen_changeset(rng),
+        "changev1" => gen_changev1(rng),
+        "need" => gen_need(rng),
+        "state" => gen_state(rng, det),
+        "uni" => gen_uni(rng),
+        "bi" => gen_bi(rng),
+        _ => gen_msg(rng, det),
+    }
+}
+
+/// the types a peer can make a node decode, weighted towards the frames and the hand-written readers
+fn pick_type(rng: &mut Rng) -> &'static str {
+    match rng.below(20) {
+        0 => "value",
+        1 => *rng.pick(&["ts", "dbv", "seq", "cluster", "actor"]),
+        2 => "change",
+        3..=5 => "changeset",
+        6 => "changev1",
+        7 | 8 => "need",
+        9..=11 => "state",
+        12..=14 => "uni",
+        15 | 16 => "bi",
+        _ => "msg",
+    }
+}
+
+/// hostile input for `dec <ty>`: a mutated valid frame (small payloads), a hand-made header, or noise
+fn gen_wire_hostile(rng: &mut Rng, ty: &str) -> Vec<u8> {
+    match rng.below(12) {
+        0 => {
+            let n = rng.range(0, 48) as usize;
+            gen_bytes(rng, n)
+        }
+        1 => {
+            // a plausible prefix followed by a special length
+            let mut b = match ty {
+                "changeset" => vec![2u8],
+                "need" => vec![1u8, 0, 0, 0, 0, 0, 0, 0, 0],
+                "state" => hex::decode(ACTOR_POOL[1]).unwrap(),
+                "msg" => vec![0, 0, 0, 0, rng.below(6) as u8, 0, 0, 0],
+                "uni" => vec![0; 12],
+                "bi" => vec![0; 8],
+                _ => vec![rng.below(6) as u8],
+            };
+            let n = rng.range(0, 40) as usize;
+            let tail = gen_bytes(rng, n);
+            let v = special_u64(rng, tail.len());
+            if rng.chance(1, 2) { b.extend_from_slice(&v.to_le_bytes()) } else { b.extend_from_slice(&(v as u32).to_le_bytes()) }
+            b.extend(tail);
+            b
+        }
+        _ => {
+            let term = loop {
+                let t = gen_term(rng, ty, true);
+                if t.len() < 6000 {
+                    break t;
+                }
+            };
+            let base = encode_term(ty, &term);
+            if rng.chance(1, 10) { base } else { mutate(rng, base, false) }
+        }
+    }
+}
+
+/// exhaustive small scope around one valid frame: every prefix, and at every offset a byte / a u32 / a
+/// u64 overwritten with the special values
+fn enumerate_frame(ty: &str, frame: &[u8], full: bool) -> Vec<String> {
+    let mut ops = vec![];
+    let mut push = |b: Vec<u8>| ops.push(format!("dec {ty} {}", hex_of(&b)));
+    for i in 0..=frame.len() {
+        push(frame[..i].to_vec());
+    }
+    let specials: &[u64] = if full {
+        &[0, 1, 2, 0x7f, 0x80, 0xff, 0x100, 0xffff, 1 << 31, 0xffff_ffff, 1 << 32, 1 << 63, u64::MAX]
+    } else {
+        &[0, 0xff, 1 << 31, u64::MAX]
+    };
+    for i in 0..frame.len() {
+        for sp in specials {
+            for w in [1usize, 4, 8] {
+                if (w == 1 && *sp > 0xff) || (w == 4 && *sp > 0xffff_ffff) {
+                    continue;
+                }
+                let mut b = frame.to_vec();
+                for (k, x) in sp.to_le_bytes()[..w].iter().enumerate() {
+                    if i + k < b.len() {
+                        b[i + k] = *x;
+                    }
+                }
+                if b != frame {
+                    push(b);
+                }
+            }
+        }
+        // remaining ± 1 as a length at this offset
+        let rem = frame.len().saturating_sub(i + 8) as u64;
+        for v in [rem, rem + 1, rem.saturating_sub(1), rem / 16, rem / 16 + 1, rem / 24 + 1] {
+            let mut b = frame.to_vec();
+            for (k, x) in v.to_le_bytes().iter().enumerate() {
+                if i + k < b.len() {
+                    b[i + k] = *x;
+                }
+            }
+            if b != frame {
+                push(b);
+            }
+        }
+    }
+    ops
+}
+
+/// the pinned samples of the enumerated scope
+const ENUM_SAMPLES: [(&str, &str); 9] = [
+    ("changeset", "emptyset(l(1-2,5-9),7)"),
+    ("changeset", "full(7,l(c(t74,b010905,t63,t6869,1,2,0,0102030405060708090a0b0c0d0e0f10,1)),0-0,0,99)"),
+    ("need", "partial(3,l(0-1,4-4))"),
+    ("state", "state(0102030405060708090a0b0c0d0e0f10,m(kv(0102030405060708090a0b0c0d0e0f11,9)),m(kv(0102030405060708090a0b0c0d0e0f11,l(1-2))),m(kv(0102030405060708090a0b0c0d0e0f11,m(kv(4,l(0-3))))),some(77))"),
+    ("uni", "uni(cv(0102030405060708090a0b0c0d0e0f10,empty(1-2,some(5))),7)"),
+    ("bi", "bi(0102030405060708090a0b0c0d0e0f10,trace(some(t30302d61),some(t78)),3)"),
+    ("msg", "mrequest(l(kv(0102030405060708090a0b0c0d0e0f10,l(full(1-2),empty(none),partial(3,l(0-1))))))"),
+    ("msg", "mreject(1)"),
+    ("value", "tc3a9"),
+];
+
 impl Prop for C09 {
     fn id(&self) -> &'static str {
         "C09"
@@ -811,6 +1802,16 @@ impl Prop for C09 {
             Tier::Thorough => 3000,
         }
     }
+    fn enumerated_case(&self, tier: Tier, index: usize) -> Option<Vec<String>> {
+        if index == 0 {
+            return Some(vec!["minbytes".to_string()]);
+        }
+        let (ty, term) = ENUM_SAMPLES.get(index - 1)?;
+        let frame = encode_term(ty, term);
+        let mut ops = vec![format!("enc {ty} {term}")];
+        ops.extend(enumerate_frame(ty, &frame, tier == Tier::Thorough));
+        Some(ops)
+    }
     fn gen_case(&self, rng: &mut Rng, _tier: Tier, index: usize) -> Vec<String> {
         let mut ops = vec![];
         // every 8th case talks to the extension (connection set-up once per child)
@@ -824,12 +1825,26 @@ impl Prop for C09 {
             }
             return ops;
         }
-        for _ in 0..70 {
+        // values: packed keys, wire encodings (byte equality), wire round trips (multi-entry maps)
+        for _ in 0..25 {
             let vs = gen_vals(rng, true, 300);
             ops.push(format!("pack {}", show_list(&vs, ",")));
         }
-        for _ in 0..140 {
+        for _ in 0..35 {
+            let ty = pick_type(rng);
+            ops.push(format!("enc {ty} {}", gen_term(rng, ty, true)));
+        }
+        for _ in 0..10 {
+            let ty = if rng.chance(2, 3) { "state" } else { "msg" };
+            ops.push(format!("rt {ty} {}", gen_term(rng, ty, false)));
+        }
+        // hostile bytes
+        for _ in 0..45 {
             ops.push(format!("unpack {}", hex_of(&gen_packed_hostile(rng))));
+        }
+        for _ in 0..100 {
+            let ty = pick_type(rng);
+            ops.push(format!("dec {ty} {}", hex_of(&gen_wire_hostile(rng, ty))));
         }
         ops
     }
